@@ -81,9 +81,35 @@ func zipuGe124(data []byte) bool {
 	return version.Compare(version.Lang("go"+mf.Go.Version), "go1.24") >= 0
 }
 
-func zipuFileTok(f *zipuFile) string {
+// zipuDiskContent: what reading the file yields once zipuMkTree has put it on disk: a regular file
+// whose size exceeds its content is extended with zero bytes (sparse).
+func zipuDiskContent(f *zipuFile) []byte {
+	if f.mode == 'r' && f.size > int64(len(f.content)) {
+		return append(append([]byte{}, f.content...), make([]byte, f.size-int64(len(f.content)))...)
+	}
+	return f.content
+}
+
+// zipuFileTok renders a file for the list ops (Open yields f.content whatever size is reported);
+// zipuDirFileTok for the directory ops, where the go-version bit must be derived from what is on disk.
+func zipuFileTok(f *zipuFile) string { return zipuFileTokWith(f, f.content) }
+
+func zipuDirFileTok(f *zipuFile) string { return zipuFileTokWith(f, zipuDiskContent(f)) }
+
+func zipuDirFilesTok(fs []*zipuFile) string {
+	if len(fs) == 0 {
+		return "_"
+	}
+	out := make([]string, len(fs))
+	for i, f := range fs {
+		out[i] = zipuDirFileTok(f)
+	}
+	return strings.Join(out, ",")
+}
+
+func zipuFileTokWith(f *zipuFile, opened []byte) string {
 	g := "0"
-	if f.mode == 'r' && zipuGe124(f.content) {
+	if f.mode == 'r' && zipuGe124(opened) {
 		g = "1"
 	}
 	return hx(f.path) + ":" + string(f.mode) + ":" + i64toa(f.size) + ":" + zipuHxC(f.content) + ":" + g
@@ -776,6 +802,10 @@ func zipuGenFiles(r *Rand, o zipuGenOpts) []*zipuFile {
 	clean := r.Chance(o.cleanPct)
 	folds := map[string]string{}
 	add := func(p string, mode byte) {
+		if o.realFS && p == "go.mod" && mode == 'i' {
+			// never a named pipe on disk: listFilesInDir reads the root go.mod with os.ReadFile, which would block forever
+			mode = 'r'
+		}
 		if clean {
 			// no two paths (or ancestor directories) equal under case folding
 			for d := p; d != "." && d != "/" && d != ""; d = path.Dir(d) {
